@@ -24,7 +24,7 @@ NOT_CARRIED = ["interpreted == compiled (Boolean.to_pyfunc / _EntryQuery.to_pyfu
 def bounded(check):
     """bounded stand-in: interpreted vs compiled boolean terms, and select/find against a reference on all small forests"""
     import json, os, subprocess
-    n, d = (3, 2) if check.tier == "quick" else (4, 3)
+    n, d = (3, 2) if check.tier == "quick" else (3, 3)
     here = os.path.dirname(os.path.dirname(os.path.abspath(__file__)))
     p = subprocess.run(["/venv/bin/python", os.path.join(here, "bounded", "query_exhaustive.py"), check.repo.root, str(n), str(d)],
                        stdout=subprocess.PIPE, stderr=subprocess.PIPE, universal_newlines=True, timeout=3000)
